@@ -444,7 +444,7 @@ func (w *c01World) exec(c *c01Case, big []byte) {
 	w.settle()
 	// leave no trace
 	if n != nil {
-		if c.Sender == 1 {
+		if c.Sender >= 1 {
 			n.vt.Forget(sender.ID())
 		}
 		if c.Entry == "pong" || strings.HasPrefix(c.Entry, "ask-") || (c.Entry == "talkreq" && (len(in) > 0 && in[0] == portalwire.PING || len(c.Prev) > 0 && c.Prev[0] == portalwire.PING)) {
@@ -515,7 +515,7 @@ func (w *c01World) enumerate() {
 // (1) TALKREQ payloads
 func (w *c01World) talkRequests(net, store string) {
 	reqs := w.c.requestSeeds(net)
-	for sender := 0; sender < 2; sender++ {
+	for sender := 0; sender < 3; sender++ {
 		proto := c01Case{Net: net, Store: store, Entry: "talkreq", Sender: sender}
 		c01Shorts(c01ShortLen, func(b []byte) { c := proto; c.In = b; w.do(&c, nil) })
 		for _, s := range reqs {
@@ -859,7 +859,7 @@ func runC01(r *mc.Report, e *Env) {
 		if w.over.Load() {
 			r.NotExhaustive("internal deadline reached")
 		}
-		r.Set("bound", map[string]any{"short_strings_up_to": 2, "two_point_mutants": w.full, "networks": c01Nets, "store_states": []string{"empty", "populated"}, "senders": 2})
+		r.Set("bound", map[string]any{"short_strings_up_to": 2, "two_point_mutants": w.full, "networks": c01Nets, "store_states": []string{"empty", "populated"}, "senders": 3})
 		e.FinishNow(r) // the uTP socket's tickers would keep the bubble's clock running for ever
 	}); msg != "" {
 		r.EngineError("bubble ended with: " + msg)
